@@ -36,7 +36,8 @@ Definition attempt (o : cop) (st : cfg) (fs : list bool) : bool * cfg * list boo
   let natural := match o, st with CRemove, CNone => true | _, _ => false end in
   if b || natural then (false, st, fs') else (true, apply st o, fs').
 
-(* the contingency path of UpgradeRepo: remove (result ignored), save the old raw config *)
+(* the contingency path of UpgradeRepo on backends without atomic replace: remove (result ignored),
+   save the old raw config *)
 Definition recover (st : cfg) (fs : list bool) (tr : list cop) : list cop * cfg * result :=
   let '(ok3, st3, fs3) := attempt CRemove st fs in
   let tr3 := if ok3 then tr ++ [CRemove] else tr in
@@ -48,8 +49,9 @@ Definition recover (st : cfg) (fs : list bool) (tr : list cop) : list cop * cfg 
    is the pattern false^k true^inf) *)
 Definition upgrade (atomic : bool) (fs : list bool) : list cop * cfg * result :=
   if atomic then
-    let '(ok2, st2, fs2) := attempt CSave2 C1 fs in
-    if ok2 then ([CSave2], st2, ROk) else recover st2 fs2 []
+    (* atomic replace: a failed upload leaves the old config in place; no contingency (70c3c2bee) *)
+    let '(ok2, st2, _) := attempt CSave2 C1 fs in
+    if ok2 then ([CSave2], st2, ROk) else ([], st2, RRecovered)
   else
     let '(ok1, st1, fs1) := attempt CRemove C1 fs in
     if ok1 then
